@@ -500,13 +500,3 @@ Definition ls_ok (c : lscase) : bool :=
   && Bool.eqb (existsb (fun o => match o with OpLockFile => true | _ => false end) (r_ops f)) (c_lock c)
   && perm_eqb shard_eqb (apply_ops (c_inv c) (r_ops f)) (c_inv_after c).
 Definition ls_mismatches (cs : list lscase) : list N := bad_indexes ls_ok cs.
-
-(** discovery alone (C34): roots, tree and the real discoverRepositories' answer (error class or specs) *)
-Definition spec_eqb (a b : spec) : bool := str_eqb (sp_name a) (sp_name b) && str_eqb (sp_source a) (sp_source b).
-Definition disc_ok (c : node * list (list str) * (N * list (str * str))) : bool :=
-  let '(tree, roots, (st, specs)) := c in
-  match discover tree roots with
-  | Ok l => N.eqb st 0 && list_eqb spec_eqb l (map (fun p => mkSpec (fst p) (snd p)) specs)
-  | Err e => N.eqb st e
-  | Panic _ => false
-  end.
